@@ -149,6 +149,7 @@ Apply(S, r) ==
       [] r.op = "set_message"   -> Plain(Req(SetBar(S, b, [B EXCEPT !.msg = r.m]), b))
       [] r.op = "set_prefix"    -> Plain(Req(SetBar(S, b, [B EXCEPT !.prefix = r.m]), b))
       [] r.op \in {"set_style", "restyle"} -> Plain(SetBar(S, b, [B EXCEPT !.tpl = r.tpl]))   \* documented: does not redraw
+      [] r.op = "copy_style" -> Plain(IF r.b2 \in S.ids THEN SetBar(S, b, [B EXCEPT !.tpl = S.bars[r.b2].tpl]) ELSE S)     \* the template of the other bar, this bar's own tab width
                                                                                               \* (restyle = style().template(..) put back with set_style)
       [] r.op = "set_tab_width" -> Res(Req(SetBar(S, b, [B EXCEPT !.tabw = r.n]), b), <<>>, vis, FALSE)
       [] r.op = "reset"         -> Plain(Req(SetBar(S, b, [B EXCEPT !.pos = 0, !.fin = "no", !.born = r.t]), b))   \* also restarts the elapsed time
